@@ -515,3 +515,64 @@ func (v *VerifCtl) writeBack(writes []VStatusWrite) {
 		}
 	}
 }
+
+// PolicyProbe: a VirtualServer of this controller uses an accessControl Policy of this controller; then the
+// Policy is edited in place so that its class designates another controller.  All events go through the real
+// handlers and lbc.sync.  It returns whether the Policy and the VirtualServer could be set up (the caller reads
+// the rendered VirtualServer file before and after from its manager).
+func (v *VerifCtl) PolicyProbe(step int) error {
+	nsi := v.lbc.namespacedInformers[""]
+	pol := func(class string, gen int64) *conf_v1.Policy {
+		return &conf_v1.Policy{
+			ObjectMeta: meta_v1.ObjectMeta{Namespace: "pp", Name: "pol", UID: "uid-pp-pol", Generation: gen},
+			Spec:       conf_v1.PolicySpec{IngressClass: class, AccessControl: &conf_v1.AccessControl{Deny: []string{"10.11.12.13"}}},
+		}
+	}
+	drain := func() {
+		q := v.lbc.syncQueue.queue
+		for q.Len() > 0 {
+			it, _ := q.Get()
+			q.Done(it)
+			v.lbc.sync(it.(task))
+		}
+	}
+	switch step {
+	case 1:
+		p := pol("nginx", 1)
+		if err := nsi.policyLister.Add(p); err != nil {
+			return err
+		}
+		createPolicyHandlers(v.lbc).AddFunc(p)
+		drain()
+		vs := &conf_v1.VirtualServer{
+			ObjectMeta: meta_v1.ObjectMeta{Namespace: "pp", Name: "cafe", UID: "uid-pp-cafe", Generation: 1},
+			Spec: conf_v1.VirtualServerSpec{IngressClass: "nginx", Host: "pp.example.com", Policies: []conf_v1.PolicyReference{{Name: "pol"}},
+				Upstreams: []conf_v1.Upstream{{Name: "u1", Service: "s1", Port: 80}},
+				Routes:    []conf_v1.Route{{Path: "/", Action: &conf_v1.Action{Pass: "u1"}}}},
+		}
+		if err := nsi.virtualServerLister.Add(vs); err != nil {
+			return err
+		}
+		createVirtualServerHandlers(v.lbc).AddFunc(vs)
+		drain()
+	case 2:
+		old, cur := pol("nginx", 1), pol("other", 2)
+		if err := nsi.policyLister.Add(cur); err != nil {
+			return err
+		}
+		createPolicyHandlers(v.lbc).UpdateFunc(old, cur)
+		drain()
+	case 3:
+		// clean up
+		if vs, ok, _ := nsi.virtualServerLister.GetByKey("pp/cafe"); ok {
+			_ = nsi.virtualServerLister.Delete(vs)
+			v.lbc.sync(task{Kind: virtualserver, Key: "pp/cafe"})
+		}
+		if p, ok, _ := nsi.policyLister.GetByKey("pp/pol"); ok {
+			_ = nsi.policyLister.Delete(p)
+			v.lbc.sync(task{Kind: policy, Key: "pp/pol"})
+		}
+		v.rec.take()
+	}
+	return nil
+}
